@@ -66,6 +66,14 @@ def _enumerate_single(steps: List[Tuple[int, str, str]]) -> List[List[dict]]:
         if kind == "write":
             faults.append([{"step": n, "fault": "errno", "errno": errno.ENOSPC, "k": 1}])
             faults.append([{"step": n, "fault": "errno", "errno": errno.EIO, "k": 7}])
+        # persistent conditions: the same operation on the same path fails again on a retry
+        if kind == "open_w":
+            faults.append([{"step": n, "fault": "errno", "errno": errno.EACCES, "sticky": True}])
+            faults.append([{"step": n, "fault": "errno", "errno": errno.EROFS, "sticky": True}])
+        elif kind == "write":
+            faults.append([{"step": n, "fault": "errno", "errno": errno.ENOSPC, "sticky": True}])
+        elif kind == "mkdir":
+            faults.append([{"step": n, "fault": "errno", "errno": errno.EACCES, "sticky": True}])
     return faults
 
 
@@ -133,10 +141,11 @@ def describe_common(what: str) -> dict:
         "rule": (
             "one work item = a (model, target) pair whose fault-free run is "
             "recorded first, then re-run once per fault: 'slice' items enumerate every "
-            "(seam event in the output dir) x (applicable errno, plus partial writes) "
+            "(seam event in the output dir) x (applicable errno, plus partial writes, plus persistent "
+            "variants that fail again on every retry of the same operation on the same path) "
             "exhaustively for the small common models; 'sample' items draw single and double "
             "faults, state faults (directory where a file is needed, file where a directory is "
-            "needed, stale longer files), unusual directory layouts (output dir beneath / equal "
+            "needed, stale longer files, stale non-UTF-8 files), unusual directory layouts (output dir beneath / equal "
             "to the snippets dir, beneath the model dir, absent and nested, a symlink) and "
             "benign short-write runs; one evaluation = one faulted run. distinct = distinct "
             "(target, operation kind, errno/fault kind, outcome class) combinations exercised "
@@ -222,7 +231,8 @@ def execute_common(plan: dict, judge: str) -> dict:
                         ["out_beneath_snippets", "out_is_snippets", "out_absent_nested",
                          "out_is_symlink", "out_beneath_model_dir"])}])
                 elif "state" in mix and r < 0.4 and ref_names:
-                    kind = rng.choice(["dir_at_file", "file_at_dir", "stale_longer"])
+                    kind = rng.choice(["dir_at_file", "file_at_dir", "stale_longer", "stale_binary",
+                                       "stale_binary"])
                     faults.append([{"fault": "state", "kind": kind, "path": rng.choice(ref_names)}])
                 elif "benign" in mix and r < 0.55:
                     faults.append([{"fault": "benign", "bufsize": rng.choice([1, 7, 64]),
@@ -283,10 +293,11 @@ def execute_common(plan: dict, judge: str) -> dict:
                             top = os.path.join(out_dir, d.split(os.sep)[0])
                             with kernel.real_open(top, "wb") as f:
                                 f.write(b"i am a file")
-                    if flt["kind"] == "stale_longer":
+                    if flt["kind"] in ("stale_longer", "stale_binary"):
                         os.makedirs(os.path.dirname(p), exist_ok=True)
                         with kernel.real_open(p, "wb") as f:
-                            f.write(b"stale " * 5000)
+                            f.write(b"stale " * 5000 if flt["kind"] == "stale_longer"
+                                    else b"\xff\xfe\x00\x81binary leftover \xc3\x28" * 300)
                         expect_identical = True
                     label.append(f"state:{flt['kind']}")
                 elif flt["fault"] == "benign":
@@ -299,7 +310,8 @@ def execute_common(plan: dict, judge: str) -> dict:
                     sim_faults.append(f2)
                     kind = next((s[1] for s in steps if s[0] == flt["step"]), "?")
                     label.append(f"{kind}:{errno.errorcode.get(flt['errno'], flt['errno'])}"
-                                 + (":partial" if flt.get("k") else ""))
+                                 + (":partial" if flt.get("k") else "")
+                                 + (":persistent" if flt.get("sticky") else ""))
             sim = kernel.Sim(sb, seed_text="fault", sched_roles=(), fault_roles=("out",),
                              faults=sim_faults, schedule=[], bufsize=k_bufsize, max_io=k_max_io,
                              shuffle_listing=False, step_cap=600000)
